@@ -1,0 +1,6 @@
+//go:build verif
+
+package lexer
+
+// VerifAtEOF reports whether the lexer's reader has delivered every rune of the input.
+func (l *Lexer) VerifAtEOF() bool { return l.reader.IsEOF() }
